@@ -76,3 +76,100 @@ def isfinite(x):
     if isinstance(x, complex): return math.isfinite(x.real) and math.isfinite(x.imag)
     if isinstance(x, Fraction): return True
     return math.isfinite(x)
+
+# ----------------------------------------------------------------------------- round four (package specA): special structure
+def cdet_exact(A, n):
+    """exact determinant of a complex matrix with binary-float (or Fraction/int) parts: elimination over (Fraction, Fraction) pairs"""
+    def mul(a, b): return (a[0]*b[0] - a[1]*b[1], a[0]*b[1] + a[1]*b[0])
+    def sub(a, b): return (a[0]-b[0], a[1]-b[1])
+    def div(a, b):
+        d = b[0]*b[0] + b[1]*b[1]
+        return ((a[0]*b[0] + a[1]*b[1]) / d, (a[1]*b[0] - a[0]*b[1]) / d)
+    M = [[(Fraction(complex(A[i*n+j]).real), Fraction(complex(A[i*n+j]).imag)) for j in range(n)] for i in range(n)]
+    det = (Fraction(1), Fraction(0))
+    for k in range(n):
+        p = next((i for i in range(k, n) if M[i][k] != (0, 0)), None)
+        if p is None: return (Fraction(0), Fraction(0))
+        if p != k:
+            M[p], M[k] = M[k], M[p]; det = (-det[0], -det[1])
+        det = mul(det, M[k][k])
+        for i in range(k + 1, n):
+            f = div(M[i][k], M[k][k])
+            if f != (0, 0):
+                for j in range(k, n): M[i][j] = sub(M[i][j], mul(f, M[k][j]))
+    return det
+
+def special_matrices(rng, n):
+    """named n x n matrices with special STRUCTURE (exact small rationals, row-major), every one nonsingular:
+    the classes a data-dependent fast path or a tie-breaking rule would single out"""
+    F = Fraction
+    def diag(d): return [d[i] if i == j else F(0) for i in range(n) for j in range(n)]
+    out = []
+    out.append(("identity", diag([F(1)] * n)))
+    out.append(("neg-identity", diag([F(-1)] * n)))
+    out.append(("scalar-2", diag([F(2)] * n)))
+    out.append(("scalar-half", diag([F(1, 2)] * n)))
+    menu = [F(1), F(-1), F(2), F(-2), F(1, 2), F(-1, 2), F(3)]
+    out.append(("diag-mixed", diag([menu[(i + rng.below(7)) % 7] for i in range(n)])))
+    out.append(("unit-lower", [F(1) if i == j else (F(rng.range(-3, 3)) if j < i else F(0)) for i in range(n) for j in range(n)]))
+    out.append(("unit-upper", [F(1) if i == j else (F(rng.range(-3, 3)) if j > i else F(0)) for i in range(n) for j in range(n)]))
+    out.append(("anti-diagonal", [F((-1) ** i) if i + j == n - 1 else F(0) for i in range(n) for j in range(n)]))
+    out.append(("cyclic-shift", [F(1) if j == (i + 1) % n else F(0) for i in range(n) for j in range(n)]))
+    out.append(("toeplitz-121", [F(2) if i == j else (F(-1) if abs(i - j) == 1 else F(0)) for i in range(n) for j in range(n)]))
+    out.append(("ones-plus-nI", [F(1 + n) if i == j else F(1) for i in range(n) for j in range(n)]))
+    out.append(("arrow", [F(n + 1) if i == j else (F(1) if i == 0 or j == 0 else F(0)) for i in range(n) for j in range(n)]))
+    # "near-diagonal impostors": non-zero diagonal, zero first sub- and super-diagonal, entries at distance >= 2 only
+    if n >= 3:
+        for _ in range(30):
+            A = [F(rng.range(1, 4) * (1 if rng.chance(1, 2) else -1)) if i == j else
+                 (F(rng.range(-3, 3)) if abs(i - j) >= 2 and rng.chance(2, 3) else F(0)) for i in range(n) for j in range(n)]
+            if any(A[i*n+j] != 0 for i in range(n) for j in range(n) if abs(i - j) >= 2) and det_exact(A, n) != 0:
+                out.append(("gapped-band", A)); break
+        A = diag([F(2 + i) for i in range(n)]); A[n - 1] = F(1); A[(n - 1) * n] = F(-1)
+        out.append(("diag-plus-corners", A))
+    for _ in range(30):      # every entry +-1: a tie in every pivot search
+        A = [F(1) if rng.chance(1, 2) else F(-1) for _ in range(n * n)]
+        if det_exact(A, n) != 0:
+            out.append(("pm-one", A)); break
+    for _ in range(30):      # columns of equal magnitude c_j (ties), different from column to column
+        c = [menu[rng.below(7)] for _ in range(n)]
+        A = [abs(c[j]) * (1 if rng.chance(1, 2) else -1) for i in range(n) for j in range(n)]
+        if det_exact(A, n) != 0:
+            out.append(("equal-magnitude-columns", A)); break
+    for _ in range(30):
+        S = [[F(rng.range(-3, 3)) for _ in range(n)] for _ in range(n)]
+        A = [S[min(i, j)][max(i, j)] for i in range(n) for j in range(n)]
+        if det_exact(A, n) != 0:
+            out.append(("symmetric", A)); break
+    for _ in range(30):      # the largest entry of every column sits in the LAST row of the active block at step 0
+        A = [F(rng.range(-2, 2)) for _ in range(n * n)]
+        for j in range(n): A[(n - 1) * n + j] = F(5 + j) * (1 if rng.chance(1, 2) else -1)
+        if det_exact(A, n) != 0:
+            out.append(("last-row-dominant", A)); break
+    return out
+
+def special_rhs(rng, A, n):
+    """named right-hand sides of special structure for the n x n system A"""
+    F = Fraction
+    out = [("zero", [F(0)] * n), ("e-first", [F(1) if i == 0 else F(0) for i in range(n)]),
+           ("e-last", [F(1) if i == n - 1 else F(0) for i in range(n)]), ("ones", [F(1)] * n),
+           ("alternating", [F((-1) ** i) for i in range(n)]),
+           ("A*ones", [sum((A[i*n+j] for j in range(n)), F(0)) for i in range(n)]),
+           ("last-column", [A[i*n+n-1] for i in range(n)]), ("halves", [F(1, 2)] * n)]
+    return out
+
+# complex values a fast path or a magnitude shortcut would single out: on the axes, unit modulus off the axes, |re| = |im|
+CPLX_SPECIAL = [1, -1, 1j, -1j, complex(0.6, 0.8), complex(-0.8, 0.6), complex(0.6, -0.8), 1 + 1j, 1 - 1j, -1 + 1j, 2, 0.5, 2j, -0.5j, 3 + 4j, 0]
+
+def special_cplx_matrix(rng, n, tries=40):
+    """n x n matrix with entries from CPLX_SPECIAL, nonsingular (exact test); None if none was found"""
+    import numpy as np
+    for _ in range(tries):
+        A = [complex(CPLX_SPECIAL[rng.below(len(CPLX_SPECIAL))]) for _ in range(n * n)]
+        if cdet_exact(A, n) == (0, 0): continue
+        # 0.6 and 0.8 are not binary fractions: [[0.6-0.8i, 1], [1, 0.6+0.8i]] has the exact determinant 1e-17, not 0.  Such a
+        # matrix is nonsingular only on paper; the properties speak of rounding accuracy relative to the condition number, so
+        # keep the well-conditioned ones (found by the thorough tier of C02: a NaN inverse on the unchanged source)
+        if np.linalg.cond(np.array(A, dtype=complex).reshape(n, n)) > 1e6: continue
+        return A
+    return None
